@@ -879,6 +879,71 @@ def emit_float_add_params(repo, frags):
     return "\n".join(out) + "\n"
 
 
+def emit_float_div_params(repo, frags):
+    """float/src/round.rs round_fract: the two fudge literals and the order of the coarse / exact decisions of the
+    closure `test`; float/src/div.rs: the pre-shrinking test of Context::div and the scaling shifts of repr_div"""
+    out = ["(** GENERATED by tools/translate.py from float/src/round.rs and float/src/div.rs. *)",
+           "From Coq Require Import ZArith QArith.", "Open Scope Z_scope.", ""]
+
+    def put(name, text):
+        out.append(text)
+        frags.append((name, "ok"))
+
+    def fail(name, why):
+        frags.append((name, "unparsed %s" % why[:100]))
+        out.append("(* UNPARSED %s *)" % name)
+
+    def dec_q(lit):
+        ip, fp = lit.split(".")
+        return "%d # %d" % (int(ip + fp), 10 ** len(fp))
+
+    ords = {"Greater": "Gt", "Less": "Lt", "Equal": "Eq"}
+    try:
+        src = open(os.path.join(repo, "float/src/round.rs")).read()
+        body = fn_body(src, r"fn\s+round_fract\b[^{]*")
+        m = re.search(r"if\s+lb\s*\+\s*(\d+\.\d+)\s*>\s*b_ub\s*\*\s*precision\s+as\s+f32\s*\{\s*Ordering::(\w+)\s*\}\s*"
+                      r"else\s+if\s+ub\s*\+\s*(\d+\.\d+)\s*<\s*b_lb\s*\*\s*precision\s+as\s+f32\s*\{\s*Ordering::(\w+)\s*\}\s*"
+                      r"else\s*\{\s*\(fmag\s*<<\s*1\)\.cmp\(&UBig::from_word\(B\)\.pow\(precision\)\)\s*\}", body)
+        if m and m.group(2) in ords and m.group(4) in ords:
+            put("filter_c_gt_gen", "Definition filter_c_gt_gen : Q := %s." % dec_q(m.group(1)))
+            put("filter_c_lt_gen", "Definition filter_c_lt_gen : Q := %s." % dec_q(m.group(3)))
+            put("half_test_gen",
+                "Definition half_test_gen (coarse_gt coarse_lt : bool) (exact : comparison) : comparison :=\n"
+                "  if coarse_gt then %s else if coarse_lt then %s else exact." % (ords[m.group(2)], ords[m.group(4)]))
+        else:
+            for nm in ("filter_c_gt_gen", "filter_c_lt_gen", "half_test_gen"):
+                fail(nm, "the closure `test` of round_fract has another shape")
+    except (LookupError, ValueError, OSError) as ex:
+        for nm in ("filter_c_gt_gen", "filter_c_lt_gen", "half_test_gen"):
+            fail(nm, str(ex))
+    try:
+        src = open(os.path.join(repo, "float/src/div.rs")).read()
+        body = fn_body(src, r"pub\s+fn\s+div\s*<[^{]*")
+        m = re.search(r"if\s+!lhs\.is_zero\(\)\s*&&\s*lhs\.digits_ub\(\)\s*([<>]=?)\s*rhs\.digits_lb\(\)\s*\+\s*self\.precision\s*\{"
+                      r"[^}]*?Self::new\(rhs\.digits\(\)\s*\+\s*self\.precision\)\s*\.repr_round_ref\(lhs\)", body, flags=re.S)
+        if m:
+            put("div_shrink_cond_gen", "Definition div_shrink_cond_gen (lhs_zero : bool) (ub lb p : Z) : bool := negb lhs_zero && (ub %s? lb + p)." % m.group(1))
+            put("div_shrink_prec_gen", "Definition div_shrink_prec_gen (rd p : Z) : Z := rd + p.")
+        else:
+            fail("div_shrink_cond_gen", "pre-shrinking of Context::div has another shape")
+            fail("div_shrink_prec_gen", "pre-shrinking of Context::div has another shape")
+        body = fn_body(src, r"fn\s+repr_div\s*<[^{]*")
+        m1 = re.search(r"let\s+shift\s*=\s*ddigits\s*\+\s*self\.precision\s*-\s*rdigits\s*;", body)
+        m2 = re.search(r"let\s+ndigits\s*=\s*digit_len::<B>\(&q\)\s*\+\s*ddigits\s*;\s*if\s+ndigits\s*([<>]=?)\s*ddigits\s*\+\s*self\.precision\s*\{", body)
+        m3 = re.search(r"let\s+shift\s*=\s*ddigits\s*\+\s*self\.precision\s*-\s*ndigits\s*;", body)
+        if m1 and m2 and m3:
+            put("div_shift_gen",
+                "Definition div_shift_gen (q_zero : bool) (dd p rd qd : Z) : Z :=\n"
+                "  if q_zero then dd + p - rd else let nd := qd + dd in if nd %s? dd + p then dd + p - nd else 0." % m2.group(1))
+        else:
+            fail("div_shift_gen", "scaling shifts of repr_div have another shape")
+    except (LookupError, ValueError, OSError) as ex:
+        for nm in ("div_shrink_cond_gen", "div_shrink_prec_gen", "div_shift_gen"):
+            if not any(f[0] == nm for f in frags):
+                fail(nm, str(ex))
+    return "\n".join(out) + "\n"
+
+
 def main():
     ap = argparse.ArgumentParser()
     ap.add_argument("--repo", default="/repo")
@@ -891,6 +956,7 @@ def main():
         "RoundTables.v": emit_round_tables,
         "Params.v": emit_params,
         "FloatAddParams.v": emit_float_add_params,
+        "FloatDivParams.v": emit_float_div_params,
     }
     for fname, fn in files.items():
         try:
